@@ -1748,6 +1748,13 @@ class Interp:
             if t is None:
                 return None
             return t if op in ("is", "==") else (not t)
+        if op in ("is", "is not", "==", "!="):
+            # type(<exception value>) is / == <class>: the exact class of an abstract exception value is known
+            for a, b in ((l, r), (r, l)):
+                if a[0] == "call" and a[1] == ("glob", "ext:builtins.type") and len(a[2]) == 1 and is_exc(a[2][0]) and b[0] == "glob":
+                    q = a[2][0][1]
+                    same = (not q.startswith("rep:")) and libfacts.canon_exc(q) == libfacts.canon_exc(b[1])
+                    return same if op in ("is", "==") else (not same)
         if op in ("is", "is not"):
             if l == r:
                 return op == "is"
